@@ -132,12 +132,12 @@ def registry_agreement(ctx, reg):
     rc = A.methods.get('readcode')
     if rl is None or rc is None:
         raise AnalysisError('Array.readcode / readcodelanguages vanished')
-    ok = any(isinstance(n, ast.For) and norm(n.iter) in ('readcodefunc.keys()', 'readcodefunc') for n in own_nodes(rl.node)) and \
-        any(isinstance(n, ast.If) and 'is not None' in norm(n.test) for n in own_nodes(rl.node))
+    from ._shared import languages_over_registry, rejects_unknown_language
+    ok = languages_over_registry(ctx, rl)
     ctx.decide(ok, 'R-SIB', 'T5', rl, None, 'readcodelanguages-over-registry',
                'readcodelanguages lists exactly the registry languages for which code is offered (is not None)',
                detail='readcodelanguages does not range over the registry with the is-not-None filter')
-    ok = any(isinstance(n, ast.If) and 'language not in readcodefunc' in norm(n.test) for n in own_nodes(rc.node))
+    ok = rejects_unknown_language(ctx, rc, reg, ctx.repo.func('readcodearray.readcode'))
     ctx.decide(ok, 'R-SIB', 'T5', rc, None, 'readcode-validates-language', 'Array.readcode rejects languages outside the registry (ValueError)',
                detail='validation vanished')
     disp = ctx.repo.func('readcodearray.readcode')
